@@ -226,6 +226,30 @@ def odd_attrs_part(check):
             return
 
 
+def const_forms_part(check):
+    """annotated constants of every primitive type (the 64-bit ones included) with initialisers of every literal form and some
+    non-literal expressions: each back end answers with output or a diagnostic - in particular the back ends that reject constants
+    or 64-bit integers do so with an error, not a panic"""
+    types = ["u8", "u32", "i32", "u64", "i64", "usize", "isize", "f64", "bool", "&'static str", "String", "char", "U53", "I54", "Foo"]
+    inits = ["1", "0x10_00", "1_000", "0b101", "0o17", "-1", "1u8", "(1)", "(1 << 4)", "1 << 4", "\"s\"", "'c'", "true", "1.5", "i64::MAX",
+             "FOO", "{ 3 }", "b'x'", "r\"raw\"", "18446744073709551615", "340282366920938463463374607431768211455"]
+    reqs, meta = [], []
+    for ty in types:
+        for init in inits:
+            src = "#[typeshare]\npub const LIMIT: %s = %s;\n" % (ty, init)
+            for lang in LANGS:
+                reqs.append({"op": "generate", "lang": lang, "config": {"package": "proto" if lang == "go" else "com.example", "type_mappings": {}},
+                             "multi_file": False, "target_os": [], "files": [{"src": src, "crate": "", "file_name": "o", "path": "src/lib.rs"}]})
+                meta.append((ty, init, lang, src))
+    for (ty, init, lang, src), ans in zip(meta, runner(reqs)):
+        check.saw(("const-form", ty, init, lang), nontrivial=True)
+        check.count("const-form-%s" % ("panic" if "panic" in ans else "ok" if "ok" in ans else "error"))
+        if "panic" in ans:
+            check.violation("%s: `pub const LIMIT: %s = %s;`: %s" % (lang, ty, init, "no answer (endless loop)" if ans.get("hang")
+                            else "panic / crash at " + str(ans["panic"])), case={"source": src, "lang": lang}, impl=ans, failing_input=True)
+            return
+
+
 def big_tree_part(check):
     """source trees much larger than the walker's bounded result channel (100): every file yields a result; with and
     without item errors; single- and multi-file mode; several walker thread counts"""
@@ -335,14 +359,16 @@ def odd_types_part(check):
 
 def run(check):
     _run_small(check)
-    if not check.violations:
+    if not check.has_failing():
         odd_types_part(check)
-    if not check.violations:
+    if not check.has_failing():
         big_tree_part(check)
-    if not check.violations:
+    if not check.has_failing():
         entry_points_part(check)
-    if not check.violations:
+    if not check.has_failing():
         odd_attrs_part(check)
+    if not check.has_failing():
+        const_forms_part(check)
     check.rule += ("; 14 spellings of the input roots (relative, single file, several / overlapping / missing / empty roots) x "
                    "{-o, -d} from inside the crate directory; trees of 130-257 (thorough 513) annotated files in 7 crates - more results than the walker's bounded channel "
                    "holds - clean and with one unsupported item in the middle, single- and multi-file mode, 1/2/8/default walker "
